@@ -293,7 +293,20 @@ def check(model, rep, tier):
   rep.unit('manual enter/exit calls', n_manual)
 
   # ------------------------------------------------------------ CTX-PUSHPOP
-  accessor = model.func(AG_CTX, '_control_ctx')
+  # the accessor of the per-thread stack, found by what it does (its name is
+  # private and free to change): the module-level function that returns an
+  # attribute of a module-level threading.local()
+  agm = model.module(AG_CTX)
+  tls = {k for k, v in agm.assigns.items() if isinstance(v, ast.Call) and
+         core.dotted(v.func) == 'threading.local'}
+  accs = [fi_ for fi_ in agm.functions.values() if any(
+      isinstance(r, ast.Return) and isinstance(r.value, ast.Attribute) and
+      isinstance(r.value.value, ast.Name) and r.value.value.id in tls
+      for r in ast.walk(fi_.node))]
+  if len(accs) != 1:
+    raise core.AnalysisError('ag_ctx: the accessor of the thread-local status stack '
+                             'was not found (%d candidates)' % len(accs))
+  accessor = accs[0]
 
   def is_stack_expr(e, env):
     if isinstance(e, ast.Call) and isinstance(e.func, ast.Name) and \
@@ -477,7 +490,7 @@ def check(model, rep, tier):
         inside.append((fi.site, n.lineno))
   rep.check(not outsiders and not inside, 'CTX-TLS',
             '%s:only-accessor-touches-thread-local' % AG_CTX,
-            'the thread-local stack holder is accessed outside _control_ctx()',
+            'the thread-local stack holder is accessed outside its accessor function',
             {'outside_module': outsiders, 'other_functions': inside})
   cur = model.func(AG_CTX, 'control_status_ctx')
   rets = [r for r in ast.walk(cur.node) if isinstance(r, ast.Return)]
